@@ -8,7 +8,7 @@ package m3
 // upper bound" - for both protocols, through ONE reused protocol object per side, over
 // an enumerated family of batches (0..40 metrics, 0..6 tags, all kinds, value extremes,
 // strings with arbitrary bytes up to 300 bytes; deterministic pseudo-random fill, seed
-// VERIF_SEED).  Bound: 600 batches per protocol.  Prints DRIVER-FAIL lines.
+// VERIF_SEED).  Bound: 600 batches per protocol (3000 in the thorough tier).  Prints DRIVER-FAIL lines.
 
 import (
 	"bytes"
@@ -73,7 +73,11 @@ func TestVerifDriverC16(t *testing.T) {
 		calcProto := fac.GetProtocol(calc) // reused for every structure
 		mem := thrift.NewTMemoryBuffer()
 		encProto := fac.GetProtocol(mem) // reused for every structure
-		for iter := 0; iter < 600; iter++ {
+		nBatches := 600
+		if os.Getenv("VERIF_DRIVER_REASON") == "thorough" {
+			nBatches = 3000 // thorough tier: five times as many batches
+		}
+		for iter := 0; iter < nBatches; iter++ {
 			var b m3thrift.MetricBatch
 			for k := rng.Intn(41); k > 0; k-- {
 				b.Metrics = append(b.Metrics, vdC16Metric(rng))
